@@ -501,17 +501,32 @@ def rule_l6(F):
                 if sp.get("k") == "bind" and sp.get("sub") is not None:
                     whole = sp["local"]
                     inner = sp["sub"]
-                name = hir.last(hir.res_def({"res": inner.get("res") or {}}) or "") if inner.get("k") == "pts" else None
-                binds = [x.get("local") for x in (inner.get("pats") or []) if x.get("k") == "bind"]
-                sides.append((name, whole, binds))
-            names = [x[0] for x in sides]
-            if sorted(str(x) for x in names) != ["Record", "RecordVar"]:
+                alts = inner["pats"] if inner.get("k") == "or" else [inner]
+                names_, binds = set(), {}
+                for alt in alts:
+                    while alt.get("k") == "pref":
+                        alt = alt["pat"]
+                    nm = hir.last(hir.res_def({"res": alt.get("res") or {}}) or "") if alt.get("k") == "pts" else None
+                    names_.add(nm)
+                    binds[nm] = [x.get("local") for x in (alt.get("pats") or []) if x.get("k") == "bind"]
+                sides.append((names_, whole, binds))
+            var_side = [x for x in sides if x[0] == {"RecordVar"}]
+            conc_side = [x for x in sides if "Record" in x[0] and x is not (var_side[0] if var_side else None)]
+            if len(var_side) < 1 or not conc_side:
                 continue
+            # (RecordVar, RecordVar | Record): the first side is the variable that is bound
+            var = var_side[0]
+            conc = conc_side[0]
+            names = [sorted(str(n) for n in sides[0][0]), sorted(str(n) for n in sides[1][0])]
             n_arms += 1
-            conc = sides[names.index("Record")]
-            var = sides[names.index("RecordVar")]
+            conc_fields_all = set(conc[2].get("Record") or []) | set(conc[2].get("RecordVar") or [])[-1:] if False else set(conc[2].get("Record") or [])
+            if "RecordVar" in conc[2] and conc[2]["RecordVar"]:
+                conc_fields_all.add(conc[2]["RecordVar"][-1])
+            conc = (conc[0], conc[1], sorted(conc_fields_all))
             conc_fields = conc[2][0] if conc[2] else None
-            var_fields = var[2][1] if len(var[2]) > 1 else None
+            vb = var[2].get("RecordVar") or []
+            var_fields = vb[1] if len(vb) > 1 else None
+            var = (var[0], var[1], vb)
             for c in hir.nodes(arm["body"], "mcall"):
                 if c["m"] != "set" or len(c["args"]) != 2:
                     continue
@@ -521,15 +536,15 @@ def rule_l6(F):
                     verdict = "the concrete record itself"
                 elif x.get("k") == "call" and hir.last(hir.call_def(x) or "") == "Record" and x.get("args"):
                     a = _follow(ld, x["args"][0])
-                    if a.get("k") == "path" and hir.res_local(a) == conc_fields:
+                    if a.get("k") == "path" and hir.res_local(a) in conc[2]:
                         verdict = "a record built from the concrete record's fields"
                     elif a.get("k") == "mcall" and a["m"] == "unify_fields" and len(a["args"]) == 2:
                         first = _follow(ld, a["args"][order_param])
-                        if first.get("k") == "path" and hir.res_local(first) == conc_fields:
+                        if first.get("k") == "path" and hir.res_local(first) in conc[2]:
                             verdict = "unify_fields ordered like the concrete record"
                         elif first.get("k") == "path" and hir.res_local(first) == var_fields:
                             verdict = "BAD: unify_fields ordered like the literal"
-                r.inst("arm (%s, %s) line %s" % (names[0], names[1], arm.get("line")), {"line": c.get("line"), "variable_bound_to": verdict})
+                r.inst("arm (%s, %s) line %s" % ("|".join(names[0]), "|".join(names[1]), arm.get("line")), {"line": c.get("line"), "variable_bound_to": verdict})
                 if verdict.startswith("BAD"):
                     r.bad(b.path, "record variable bound to a record in the literal's field order", relfile(b.file), c.get("line"),
                           "the record variable is bound to a record type whose fields are listed in the order of the variable's own (literal) fields instead of the concrete record's: "
@@ -537,7 +552,7 @@ def rule_l6(F):
                 elif verdict == "unknown":
                     r.missing("a recognised form of the type a record variable is bound to at line %s" % c.get("line"))
     if n_arms < 2:
-        r.missing("the two (RecordVar, Record) arms of unify_inner (found %d)" % n_arms)
+        r.missing("the arms of unify_inner that pair a record variable with a concrete record, one for each side (found %d)" % n_arms)
     return r
 
 
